@@ -2,8 +2,8 @@
 import runner_props
 
 PROP = "C09"
-LEAN_MODULES = ["PamsProps.C09"]
-NAMESPACES = ["Pams.C09"]
+LEAN_MODULES = ["PamsProps.C09", "PamsProps.SimE2E"]
+NAMESPACES = ["Pams.C09", "Pams.C09"]
 DRIVERS = ["Runner", "Sim"]
 TRUSTED = [
     "scheduler model treats markets, agents, user events and random draws as oracles (tape recorded from the real run through public extension points: simulator_class, registered agent/market/event classes, prng subclass, Logger subclass)",
